@@ -438,3 +438,12 @@ Definition c03_guard (pkg : pkg_spec) (fl : ctor_flags) (fuel : nat) (sd : sdecl
    leading stars of the printed type and remembers whether there was one *)
 Definition star_of_ty (t : ty) : string :=
   let '(qn, isptr) := qualified_name t in (if isptr then "*" else "") ++ qn.
+
+(* the accessor names of the struct itself are pairwise distinct and no field of the struct carries one *)
+Definition own_accessor_names (fl : ctor_flags) (sd : sdecl) : list string :=
+  (map (fun a => getter_name (af_name a)) (spec_accessors fl sd true) ++
+   map (fun a => setter_name (af_name a)) (spec_accessors fl sd false))%list.
+Definition own_accessor_names_ok (fl : ctor_flags) (sd : sdecl) : bool :=
+  nodup_str (own_accessor_names fl sd) &&
+  forallb (fun n => negb (existsb (fun tf : tfield => String.eqb (fst (fst tf)) n) (struct_fields (self_inst sd))))
+          (own_accessor_names fl sd).
